@@ -188,10 +188,13 @@ namespace sim
 			if (m_next_bind_port > 65534) m_next_bind_port = 2000;
 
 			listen_socket_iter_t i = m_listen_sockets.lower_bound(ep);
+			// if the candidate is taken, keep looking through the whole
+			// ephemeral range (wrapping around) before giving up
+			int tries = 0;
 			while (i != m_listen_sockets.end() && i->first == ep)
 			{
-				ep.port(ep.port() + 1);
-				if (ep.port() > 65530)
+				ep.port(ep.port() < 65534 ? ep.port() + 1 : 2000);
+				if (++tries > 65534 - 2000)
 				{
 					ec = boost::asio::error::address_in_use;
 					return ip::tcp::endpoint();
@@ -247,10 +250,13 @@ namespace sim
 			ep.port(m_next_bind_port++);
 			if (m_next_bind_port > 65534) m_next_bind_port = 2000;
 			udp_socket_iter_t i = m_udp_sockets.lower_bound(ep);
+			// if the candidate is taken, keep looking through the whole
+			// ephemeral range (wrapping around) before giving up
+			int tries = 0;
 			while (i != m_udp_sockets.end() && i->first == ep)
 			{
-				ep.port(ep.port() + 1);
-				if (ep.port() > 65530)
+				ep.port(ep.port() < 65534 ? ep.port() + 1 : 2000);
+				if (++tries > 65534 - 2000)
 				{
 					ec = boost::asio::error::address_in_use;
 					return ip::udp::endpoint();
